@@ -39,7 +39,7 @@ class Unit:
         self.parse()
         self.dir = os.path.join(BUILD, prop, self.name)
         self.fninfos = {}; self.lits = {}; self.extern = {}
-        self.rules = {}; self.auto_lowered = []; self.auto_failed = {}
+        self.rules = {}; self.auto_lowered = []; self.auto_failed = {}; self.vanished = []
 
     def parse(self):
         part = 1; l1 = []; l2 = []
@@ -164,6 +164,7 @@ class Unit:
             out.append('typedef struct %s %s;\n' % (lower.mangle_core(q), lower.mangle_core(q)))
         for q in ix.enums:
             en = lower.mangle_core(q)
+            if not q or q.endswith('::') or not (ix.enums[q].get('name') or '') or lower.mangle_core(q) in [lower.mangle_core(r) for r in ix.rec_by_name]: continue     # anonymous enum: constants only
             if not en or en in ('Handler_HandlerType',) or re.search(r'\b%s\s*;' % re.escape(en), side): continue
             out.append('typedef int %s;   /* repo enum */\n' % en)
         if self.lits:
@@ -228,6 +229,8 @@ class Unit:
             for lp in fi.loops:
                 mac = 'LOOP_%s_%d' % (cname, lp['ordinal'])
                 out.append('#ifndef %s\n#define %s __CPROVER_loop_invariant(1 == 1) /* default: no loop contract in the sidecar -> havoc abstraction */\n#endif\n' % (mac, mac))
+                # a loop contract of the sidecar that names a local the code no longer has (see build(): test compilation) is dropped
+                out.append('#ifdef VERIF_DROP_LOOPS_%s\n#undef %s\n#define %s __CPROVER_loop_invariant(1 == 1)\n#endif\n' % (cname, mac, mac))
                 # bounded fallback (report.py): all loops of the unit WITHOUT contracts, unwound a fixed number of times instead
                 out.append('#ifdef VERIF_NO_LOOP_CONTRACTS\n#undef %s\n#define %s\n#endif\n' % (mac, mac))
         out += [s + '\n' for s in L.static_locals]
@@ -242,12 +245,29 @@ class Unit:
         for p in self.proofs:
             if p.kind == 'enforce':
                 fi = L.fns.get(p.target)
+                if fi is None and re.match(r'^(find_if_lambda_|sort_lambda_|lambda_)', p.target):
+                    # a helper the lowering derives from the code (a lambda, the predicate loop of a std::find_if): the code no longer
+                    # contains it, so there is nothing to prove about it; whatever replaced it is part of the function that contained it
+                    p.vanished = True; self.vanished.append(p.target); continue
                 if fi is None:
                     raise Undecided('enforce target %s is not among the lowered functions (%s)' % (p.target, ', '.join(L.fns)))
                 out.append(self.harness_text(p, fi))
         text = ''.join(out)
+        self.loop_fns = {c: fi for c, fi in L.fns.items() if fi.loops}
         self.unit_c = os.path.join(self.dir, 'unit.c')
         open(self.unit_c, 'w').write(text)
+        # test compilation: a loop contract that names a local variable the code no longer has (renamed / removed by an edit) would stop
+        # EVERY proof of the unit at goto-cc; such a contract no longer applies -> that function's loop contracts are dropped (its loops
+        # then count as un-annotated: failures behind them are settled by replay / the bounded stand-in, never reported by themselves)
+        self.dropped_fns = []
+        for _ in range(6):
+            cc = ['goto-cc', '-I', VERIF, '-DVERIF_CBMC'] + ['-DVERIF_DROP_LOOPS_' + f for f in self.dropped_fns] + [self.unit_c, '-o', os.path.join(self.dir, 'probe.gb')]
+            r = subprocess.run(cc, capture_output=True, text=True)
+            if r.returncode == 0: break
+            err = r.stderr + r.stdout
+            m = re.search(r"In function '(\w+)':\n[^\n]*error: failed to find symbol '(\w+)'", err)
+            if not m or m.group(1) not in self.loop_fns or m.group(1) in self.dropped_fns: break
+            self.dropped_fns.append(m.group(1))
         json.dump({'functions': {c: {'qname': fi.qname, 'file': fi.file, 'line': fi.line, 'loops': fi.loops,
                                       'callees': sorted(fi.callees), 'rules': fi.rules} for c, fi in L.fns.items()},
                    'external_callees': sorted(self.extern), 'literals': {k: v[1] for k, v in self.lits.items()}},
@@ -279,7 +299,7 @@ class Unit:
             if not fi: continue
             for lp in fi.loops:
                 mac = 'LOOP_%s_%d' % (c, lp['ordinal'])
-                if mac in self.default_loops() and mac not in out:
+                if (mac in self.default_loops() or c in getattr(self, 'dropped_fns', [])) and mac not in out:
                     out.append(mac)
         return out
 
@@ -304,6 +324,7 @@ class Unit:
             if d: cc.insert(1, '-D' + d)
         fb = p.opts.get('fallback_unwind')
         if fb: cc.insert(1, '-DVERIF_NO_LOOP_CONTRACTS')
+        for f in getattr(self, 'dropped_fns', []): cc.insert(1, '-DVERIF_DROP_LOOPS_' + f)
         r = subprocess.run(cc, capture_output=True, text=True)
         log = '$ ' + ' '.join(cc) + '\n' + r.stdout + r.stderr
         if r.returncode != 0:
